@@ -146,22 +146,22 @@ func c07ScopesN(spellAt int, maxActive int) {
 	lineStart := func(needle string) int { return nd.LineStartOf(c07Src, holes, needle) }
 	fileEnd := off(") // B-END") + 1
 	scopes := []c07Scope{
-		{sp[0], off("//«c0»"), fileEnd},                              // before the package clause: whole file
-		{sp[1], off("//«c1»"), off("} // A-END") + 1},                // alone before a declaration: the whole declaration
-		{sp[2], off("//«c2»"), off("2) //«c11»") + 2},          // alone inside a body: the whole following statement
-		{sp[3], lineStart("//«c3»"), off("//«c3»") + width},          // trailing code: its own line
-		{sp[4], lineStart("//«c4»"), off("//«c4»") + width},          // trailing "if ... {": its own line
-		{sp[5], off("//«c5»"), off("//«c5»") + width},                // last in a body: nothing follows
-		{sp[6], off("//«c6»"), off("} // S-END") + 1},                // alone before a type declaration
-		{sp[7], lineStart("//«c7»"), off("//«c7»") + width},          // trailing a struct field
-		{sp[8], off("//«c8»"), off("b int // S-B") + len("b int")},    // alone before a struct field: the field
+		{sp[0], off("//«c0»"), fileEnd},                                      // before the package clause: whole file
+		{sp[1], off("//«c1»"), off("} // A-END") + 1},                        // alone before a declaration: the whole declaration
+		{sp[2], off("//«c2»"), off("2) //«c11»") + 2},                        // alone inside a body: the whole following statement
+		{sp[3], lineStart("//«c3»"), off("//«c3»") + width},                  // trailing code: its own line
+		{sp[4], lineStart("//«c4»"), off("//«c4»") + width},                  // trailing "if ... {": its own line
+		{sp[5], off("//«c5»"), off("//«c5»") + width},                        // last in a body: nothing follows
+		{sp[6], off("//«c6»"), off("} // S-END") + 1},                        // alone before a type declaration
+		{sp[7], lineStart("//«c7»"), off("//«c7»") + width},                  // trailing a struct field
+		{sp[8], off("//«c8»"), off("b int // S-B") + len("b int")},           // alone before a struct field: the field
 		{sp[9], off("//«c9»"), off("var q int // B-VAR") + len("var q int")}, // alone before a local declaration (the comment is its Doc)
-		{sp[10], lineStart("//«c10»"), off("//«c10»") + width},       // trailing a line that only closes a block: its own line
-		{sp[11], lineStart("//«c11»"), off("//«c11»") + width},       // trailing the LAST line of a multi-line statement: that line only
-		{sp[12], lineStart("//«c12»"), off("//«c12»") + width},       // trailing a one-line package-level declaration: its own line
-		{sp[13], lineStart("//«c13»"), off("//«c13»") + width},       // trailing a line that only OPENS a construct (for {): its own line
-		{sp[14], lineStart("//«c14»"), off("//«c14»") + width},       // trailing "var (": its own line
-		{sp[15], lineStart("//«c15»"), off("//«c15»") + width},       // trailing the package clause: its own line
+		{sp[10], lineStart("//«c10»"), off("//«c10»") + width},               // trailing a line that only closes a block: its own line
+		{sp[11], lineStart("//«c11»"), off("//«c11»") + width},               // trailing the LAST line of a multi-line statement: that line only
+		{sp[12], lineStart("//«c12»"), off("//«c12»") + width},               // trailing a one-line package-level declaration: its own line
+		{sp[13], lineStart("//«c13»"), off("//«c13»") + width},               // trailing a line that only OPENS a construct (for {): its own line
+		{sp[14], lineStart("//«c14»"), off("//«c14»") + width},               // trailing "var (": its own line
+		{sp[15], lineStart("//«c15»"), off("//«c15»") + width},               // trailing the package clause: its own line
 	}
 	code := nd.Enum("q_code", "IMM01", "IMM02", "CTOR02", "CTOR01", "TONL01", "PKGO03", "IMPL02")
 	qoff := nd.Int("q_offset")
@@ -178,7 +178,6 @@ func c07ScopesN(spellAt int, maxActive int) {
 	nd.Assert(got == want, "suppressed iff a matching marker's documented scope contains the position")
 	_ = token.NoPos
 }
-
 
 const c07SrcRD = `package d
 
@@ -427,4 +426,47 @@ func ZZC07FuncLine() {
 		{fu, nd.LineOf(c07SrcFuncLine, "FL-LIT"), "TONL01", true},
 		{fu, nd.LineOf(c07SrcFuncLine, "FL-AFTER"), "TONL02", true},
 	}, "C07 marker trailing the func line covers that line only")
+}
+
+const c07SrcAfterBlock = `package d
+
+//«annT»
+type T struct {
+	f int
+}
+
+var (
+	first = T{f: 1} /* primary */ //«ign»
+	second = T{f: 2} // AB-SECOND
+)
+
+func Use(t *T) {
+	t.f = 1 /* reset */ //«ign»
+	t.f = 2 // AB-NEXT
+	t.f = 3 /* a */ /* b */ //«ign»
+	t.f = 4 // AB-LAST
+}
+`
+
+// ZZC07AfterBlockComment: a marker appended to a line that already ends in a general comment (so that the parser puts both
+// comments into one group) still trails the code of its line: it covers that line and nothing after it.
+func ZZC07AfterBlockComment() {
+	annT := nd.EnumPad("annT", " @immutable", " @constructor NewT", " plain")
+	ign := nd.EnumPad("ign", " @ignore IMM01", " @ignore CTOR01", " @ignore ALL", " plain")
+	prog := nd.LoadProgram([]nd.File{{Pkg: "zzmod/d", Name: "d.go", Src: c07SrcAfterBlock}}, []nd.Hole{{"annT", annT}, {"ign", ign}})
+	res := Analyze(prog, config.Default(), "zzmod/d", Facts{}, "imm", "ctor")
+	imm := nd.HasPrefix(annT, " @immutable")
+	ctor := nd.HasPrefix(annT, " @constructor")
+	offI := nd.Or(nd.HasPrefix(ign, " @ignore IMM01"), nd.HasPrefix(ign, " @ignore ALL"))
+	offC := nd.Or(nd.HasPrefix(ign, " @ignore CTOR01"), nd.HasPrefix(ign, " @ignore ALL"))
+	f := "/zz/zzmod/d/d.go"
+	src := c07SrcAfterBlock
+	CheckExact(res.Diags, []Expect{
+		{f, nd.LineOf(src, "first = T{f: 1}"), "CTOR01", nd.And(ctor, nd.Not(offC))},
+		{f, nd.LineOf(src, "AB-SECOND"), "CTOR01", ctor},
+		{f, nd.LineOf(src, "t.f = 1 /* reset */"), "IMM01", nd.And(imm, nd.Not(offI))},
+		{f, nd.LineOf(src, "AB-NEXT"), "IMM01", imm},
+		{f, nd.LineOf(src, "t.f = 3 /* a */"), "IMM01", nd.And(imm, nd.Not(offI))},
+		{f, nd.LineOf(src, "AB-LAST"), "IMM01", imm},
+	}, "C07 marker behind a general comment on the same line")
 }
